@@ -14,7 +14,7 @@
  * limitations under the License.
  */
 
-use fancy_regex::Regex;
+use fancy_regex::{Regex, RegexBuilder};
 use lazy_static::lazy_static;
 use std::cmp::Ordering;
 
@@ -116,7 +116,9 @@ impl SentenceDetector {
         let input_exceeds_limit = s.len() < input.len();
 
         lazy_static! {
-            static ref SENTENCE_BREAKER: Regex = Regex::new(&format!(
+            // the search is linear in the window; the default limit of 1,000,000 backtracking steps
+            // would make windows of a few hundred thousand characters fail with an error
+            static ref SENTENCE_BREAKER: Regex = RegexBuilder::new(&format!(
                 "([{}]|{}+|(?<![{}])[{}](?![{}{}]))[{}{}]*|{}",
                 PERIODS,
                 CDOTS,
@@ -128,6 +130,8 @@ impl SentenceDetector {
                 PERIODS,
                 BR_TAG
             ))
+            .backtrack_limit(usize::MAX)
+            .build()
             .unwrap();
             static ref ITEMIZE_HEADER: Regex =
                 Regex::new(&format!("^([{}])([{}])$", ALPHABET_OR_NUMBER, DOT)).unwrap();
